@@ -58,8 +58,33 @@ def rt_case(max_ext):
         want = (1 if has_size else 0) | (2 if has_ids else 0) | (4 if has_mode else 0) | (8 if has_times else 0) \
             | (0x80000000 if n_ext else 0)
         ctx.prove(lift(b._flags) == want, "flags-reflect-present-fields")
+        # the decoded object is an ordinary attribute set: take one field away (or empty the extended attributes) and
+        # encode it again - the field stays absent, the others stay as they were
+        drop = ctx.choice("then-remove", ["nothing", "size", "permissions", "times", "extended"])
+        if drop == "size":
+            b.st_size = None
+        elif drop == "permissions":
+            b.st_mode = None
+        elif drop == "times":
+            b.st_atime = b.st_mtime = None
+        elif drop == "extended":
+            b.attr = {}
+        with ctx.patches(std_patches(PM, PU, SA, builtins=("int",))):
+            m2 = PM.Message()
+            b._pack(m2)
+            c = SFTPAttributes._from_msg(PM.Message(m2.asbytes()))
+        h_size, h_mode, h_times, h_ext = (has_size and drop != "size", has_mode and drop != "permissions", has_times and drop != "times",
+                                          bool(n_ext) and drop != "extended")
+        ok = ((c.st_size == a.st_size) if h_size else c.st_size is None)
+        ok = ok & ((c.st_mode == a.st_mode) if h_mode else c.st_mode is None)
+        ok = ok & (((c.st_atime == a.st_atime) & (c.st_mtime == a.st_mtime)) if h_times else (c.st_atime is None and c.st_mtime is None))
+        ok = ok & (((c.st_uid == a.st_uid) & (c.st_gid == a.st_gid)) if has_ids else (c.st_uid is None and c.st_gid is None))
+        ctx.prove(ok, "re-encoding-after-removing-a-field:absent-stays-absent,others-unchanged")
+        ctx.prove(c.attr == (ext if h_ext else {}), "re-encoding:extended-attributes")
+        want2 = (1 if h_size else 0) | (2 if has_ids else 0) | (4 if h_mode else 0) | (8 if h_times else 0) | (0x80000000 if h_ext else 0)
+        ctx.prove(lift(c._flags) == want2, "re-encoding:flags-reflect-present-fields")
     return Case("attr-roundtrip", fn, ["size", "uid-gid", "permissions", "times", "extended-attributes",
-                                       "flags-reflect-present-fields"],
+                                       "flags-reflect-present-fields", "re-encoding-after-removing-a-field:absent-stays-absent,others-unchanged"],
                 {"size": "0..2^64-1", "uid/gid/mode/times": "0..2^32-1", "extended_pairs": "0..%d" % max_ext,
                  "presence": "all 16 combinations (solver booleans)"})
 
